@@ -116,6 +116,17 @@ def _header_updates(fn: FuncInfo):
     return out
 
 
+def _advanced_by_lead(flow, ex: ast.AST) -> bool:
+    """`mjd_after_nsamps(start - min(0, int(D.min())))` with D the dispersion delays: a product whose channels are counted from
+    the earliest one (delays shifted to be non-negative) begins |min delay| samples after `start` (F38)."""
+    if not (isinstance(ex, ast.Call) and norm(ex.func) == "self.header.mjd_after_nsamps" and len(ex.args) == 1):
+        return False
+    from ..normalform import canon, strip_ordinals
+    got = strip_ordinals(canon(ex.args[0]))
+    lead = "min(0, int(self.header.get_dmdelays(dm).min()))"
+    return got in (strip_ordinals(canon(f"start - {lead}")), strip_ordinals(canon(f"start + -1 * {lead}")))
+
+
 def run(prog: Program, res: Result, tier: str) -> None:
     prog.consulted.update(SCOPE + [HEADER])
     hdr = prog.cls(HEADER, "Header")
@@ -214,7 +225,7 @@ def run(prog: Program, res: Result, tier: str) -> None:
                 ok = False
                 if v is not None:
                     ex = flow.expand(v, flow.cfg.node_for(c))
-                    ok = norm(ex) == "self.header.mjd_after_nsamps(start)"
+                    ok = norm(ex) == "self.header.mjd_after_nsamps(start)" or _advanced_by_lead(flow, ex)
                 if not ok:
                     missing.append(c)
             key = f"{f.qualname}:tstart"
@@ -630,6 +641,8 @@ def _scaling_and_dm(prog: Program, res: Result) -> None:
 
 B = "sigpyproc/base.py"
 MUTANTS = [
+    {"id": "c08-dedisperse-tstart-without-lead", "file": "sigpyproc/base.py", "expect": "C08.R2",
+     "old": "                    \"nsamples\": tim_len,\n                    \"tstart\": self.header.mjd_after_nsamps(start - min_delay),", "new": "                    \"nsamples\": tim_len,\n                    \"tstart\": self.header.mjd_after_nsamps(start + min_delay),"},
     {"id": "c08-dedisp-no-nsamples", "file": B, "expect": "C08.R1",
      "old": "                    \"dm\": dm,\n                    \"nsamples\": tim_len,\n", "new": "                    \"dm\": dm,\n"},
     {"id": "c08-downsample-foff-tfactor", "file": B, "expect": "C08.R",
